@@ -99,7 +99,7 @@ def spec_meta(f, md):
 class C14(Prop):
     ID = 'C14'
     CORRESPONDENCE = 'PlaybackModel.MetaFilter.matchMeta vs TapeCassette.match_against_recorded_metadata'
-    RULE = ('filters (atoms, <=2 alternatives, operator objects) x metadata values enumerated exhaustively over a small '
+    RULE = ('filters (atoms incl. bracket-only patterns, <=2 alternatives, operator objects whose operator field is a known / unknown string, a number, a list, a dict) x metadata values enumerated exhaustively over a small '
             'universe, then random nested filters/metadata of several keys, plus listings through the in-memory cassette; '
             'a case is non-trivial when its filter is non-empty; distinct = distinct canonical case')
     TRUSTED = ['correspondence harness harness/props/c14.py + Lean driver (Drive/C14.lean)',
